@@ -813,19 +813,291 @@ Proof.
       eapply inv_unevict; eauto. cbn. now rewrite Ecm.
   - (* Clean *)
     destruct bk; [|split; [reflexivity|now apply inv_tick]].
-    pose proof (inv_size _ _ HI) as Hz. cbn in Hz.
+    pose proof (inv_size _ _ HI) as Hz. cbn in Hz. subst size.
     destruct ((pct <? 0) || (100 <=? pct))%Z.
-    { cbn [fst snd]. rewrite Hz. split; [reflexivity|now apply inv_tick]. }
+    { cbn [fst snd]. split; [reflexivity|now apply inv_tick]. }
     rewrite <- (inv_queue_eq _ _ HI). cbn [c_queue].
-    destruct (evict_agree (k_cap kc - clean_target (k_cap kc) pct) l clk q kc size HI)
+    destruct (evict_agree (k_cap kc - clean_target (k_cap kc) pct) l clk q kc _ HI)
       as (kc1 & size1 & q1 & ok & E1 & E2 & HI1 & Hc1 & Hok & Hno).
-    rewrite E1, E2. pose proof (inv_size _ _ HI1) as Hz1. cbn in Hz1.
+    rewrite E1, E2. pose proof (inv_size _ _ HI1) as Hz1. cbn in Hz1. subst size1.
     destruct ok.
-    + cbn [fst snd]. rewrite Hz1. split; [reflexivity|now apply inv_tick].
+    + cbn [fst snd]. split; [reflexivity|now apply inv_tick].
     + destruct (order_legal kc1 order); [|split; [reflexivity|now apply inv_tick]].
-      destruct (clean_agree (clean_target (k_cap kc) pct) l clk (clean_keys kc1 respect order) kc1 size1 q1 HI1) as (F1 & F2 & F3).
+      destruct (clean_agree (clean_target (k_cap kc) pct) l clk (clean_keys kc1 respect order) kc1 _ q1 HI1) as (F1 & F2 & F3).
       cbn [fst snd]. rewrite <- F1.
       pose proof (inv_size _ _ F2) as Hz2. cbn in Hz2. rewrite Hz2.
       split; [reflexivity|]. apply inv_tick.
       destruct (inv_canon _ _ F2) as [G1 G2]. cbn in G1. rewrite G1 at 1. rewrite <- G1. exact F2.
 Qed.
+
+(* ================================================================ histories *)
+Lemma inv_init cap : cap < two64 -> Inv (cinit cap) (sinit cap).
+Proof.
+  intros H. constructor; cbn; auto.
+  - constructor.
+  - unfold s_size, sum_sizes. cbn. lia.
+  - constructor; cbn.
+    + constructor.
+    + intros k. unfold evictableb. cbn. split; [tauto|discriminate].
+    + constructor.
+    + tauto.
+Qed.
+
+Lemma snap_agree c s : Inv c s -> csnap c = ssnap s.
+Proof.
+  intros H. unfold csnap, ssnap. rewrite (inv_queue_eq _ _ H), (inv_size _ _ H), (inv_core _ _ H). reflexivity.
+Qed.
+
+Theorem run_refines bk : forall ops c s, Inv c s ->
+  snd (crun bk true c ops) = snd (srun bk s ops) /\ Inv (fst (crun bk true c ops)) (fst (srun bk s ops)).
+Proof.
+  induction ops as [|o t IH]; intros c s HI; cbn [crun srun].
+  - cbn. auto.
+  - destruct (step_refines bk c s o HI) as [Ho HI1].
+    destruct (cstep bk true c o) as [c1 r1]. destruct (sstep bk s o) as [s1 r2]. cbn [fst snd] in *.
+    destruct (IH c1 s1 HI1) as [Hr HI2].
+    destruct (crun bk true c1 t) as [c2 rs1]. destruct (srun bk s1 t) as [s2 rs2]. cbn [fst snd] in *.
+    subst. rewrite (snap_agree _ _ HI1). auto.
+Qed.
+
+(* run of a concatenation *)
+Lemma crun_app bk fx : forall a b c,
+  crun bk fx c (a ++ b) =
+  (fst (crun bk fx (fst (crun bk fx c a)) b), snd (crun bk fx c a) ++ snd (crun bk fx (fst (crun bk fx c a)) b)).
+Proof.
+  induction a as [|o t IH]; intros b c; cbn [crun app].
+  - cbn. now destruct (crun bk fx c b).
+  - destruct (cstep bk fx c o) as [c1 r]. rewrite IH.
+    destruct (crun bk fx c1 t) as [c2 rs]. cbn [fst snd].
+    now destruct (crun bk fx c2 b).
+Qed.
+
+Lemma srun_app bk : forall a b s,
+  srun bk s (a ++ b) =
+  (fst (srun bk (fst (srun bk s a)) b), snd (srun bk s a) ++ snd (srun bk (fst (srun bk s a)) b)).
+Proof.
+  induction a as [|o t IH]; intros b s; cbn [srun app].
+  - cbn. now destruct (srun bk s b).
+  - destruct (sstep bk s o) as [s1 r]. rewrite IH.
+    destruct (srun bk s1 t) as [s2 rs]. cbn [fst snd].
+    now destruct (srun bk s2 b).
+Qed.
+
+(* ================================================================ what the eviction loop removes *)
+(* the loop drops a prefix of the order it is given and nothing else *)
+Lemma s_evict_prefix : forall order kc space,
+  (forall k, In k order -> assoc k (k_blobs kc) <> None) -> NoDup order ->
+  exists n, forall k,
+    assoc k (k_blobs (fst (s_evict order kc space))) =
+    if memN k (firstn n order) then None else assoc k (k_blobs kc).
+Proof.
+  induction order as [|k0 t IH]; intros kc space Hin Hnd; cbn [s_evict].
+  - exists 0%nat. intros k. now destruct (s_size kc + space <=? k_cap kc).
+  - destruct (s_size kc + space <=? k_cap kc).
+    + exists 0%nat. intros k. reflexivity.
+    + inversion Hnd as [|? ? Hk0 Hnd']; subst.
+      destruct (assoc k0 (k_blobs kc)) as [b0|] eqn:E0; [|exfalso; apply (Hin k0); [now left|auto]].
+      destruct (IH (drop_blob k0 kc) space) as [n Hn]; auto.
+      { intros k Hk. rewrite (drop_blob_blobs _ _ _ E0).
+        rewrite assoc_remove_neq by (intro; subst; contradiction). apply Hin. now right. }
+      exists (S n). intros k. rewrite Hn. cbn [firstn memN existsb]. fold (memN k (firstn n t)).
+      rewrite (drop_blob_blobs _ _ _ E0).
+      destruct (N.eqb_spec k k0) as [->|Hne]; cbn [orb].
+      * rewrite assoc_remove_eq. now destruct (memN k0 (firstn n t)).
+      * now rewrite assoc_remove_neq.
+Qed.
+
+Lemma in_skipn_in {A} (x : A) : forall n l, In x (skipn n l) -> In x l.
+Proof.
+  induction n as [|n IH]; intros l H; [exact H|]. destruct l; cbn in H; [tauto|]. right. now apply IH.
+Qed.
+Lemma in_firstn_in {A} (x : A) : forall n l, In x (firstn n l) -> In x l.
+Proof.
+  induction n as [|n IH]; intros l H; cbn in H; [tauto|]. destruct l; cbn in H; [tauto|].
+  destruct H; [now left|right; now apply IH].
+Qed.
+
+Lemma sorted_prefix_lt (R : N -> N -> Prop) l n a b :
+  StronglySorted R l -> In a (firstn n l) -> In b (skipn n l) -> R a b.
+Proof.
+  intros Hs. revert n. induction Hs as [|x t Hs IH Hf]; intros n Ha Hb.
+  - destruct n; cbn in Ha; tauto.
+  - destruct n; cbn in Ha, Hb; [tauto|]. destruct Ha as [->|Ha].
+    + rewrite Forall_forall in Hf. apply Hf. eapply in_skipn_in; eauto.
+    + eapply IH; eauto.
+Qed.
+
+(* ================================================================ the capacity never changes *)
+Lemma s_clean_loop_cap target : forall keys kc, k_cap (s_clean_loop kc target keys) = k_cap kc.
+Proof.
+  induction keys as [|k t IH]; intros kc; cbn [s_clean_loop]; auto.
+  destruct (s_size kc <=? target); auto. now rewrite IH, drop_blob_cap.
+Qed.
+
+Lemma open_write_at_cap kc b off data : k_cap (open_write_at kc b off data) = k_cap kc.
+Proof. unfold open_write_at. destruct (cell_of kc (b_cell b)); auto. now destruct data. Qed.
+
+Lemma sstep_cap bk s o : k_cap (s_core (fst (sstep bk s o))) = k_cap (s_core s).
+Proof.
+  unfold sstep. destruct (plain_step bk (s_core s) o) as [[kc1 r]|] eqn:P.
+  { cbn. apply plain_same_index in P. now destruct P. }
+  clear P. destruct o; cbn [fst s_core]; auto.
+  - unfold s_create. destruct (negb (create_supported bk None)); auto.
+    destruct (assoc k (k_blobs (s_core s))); auto.
+    pose proof (s_evict_cap (evict_order s) (s_core s) size) as H.
+    destruct (s_evict (evict_order s) (s_core s) size) as [kc1 []]; cbn in *; auto.
+  - unfold s_create. destruct (negb (create_supported bk (Some data))); auto.
+    destruct (assoc k (k_blobs (s_core s))); auto.
+    pose proof (s_evict_cap (evict_order s) (s_core s) size) as H.
+    destruct (s_evict (evict_order s) (s_core s) size) as [kc1 []]; cbn in *; auto.
+  - destruct bk; auto. destruct (lookup (s_core s) k sc); auto.
+  - destruct (lookup (s_core s) k sc); auto.
+  - destruct (lookup (s_core s) k sc); cbn; auto. apply open_write_at_cap.
+  - destruct (assoc k (k_blobs (s_core s))); auto. destruct (b_complete b); auto.
+  - destruct (lookup (s_core s) k sc); cbn; auto. apply drop_blob_cap.
+  - destruct (lookup (s_core s) k sc); auto. destruct (b_banned b); auto.
+  - destruct (lookup (s_core s) k sc); auto. destruct (negb (b_banned b)); auto.
+  - destruct bk; auto. destruct ((pct <? 0) || (100 <=? pct))%Z; auto.
+    pose proof (s_evict_cap (evict_order s) (s_core s) (k_cap (s_core s) - clean_target (k_cap (s_core s)) pct)) as H.
+    destruct (s_evict (evict_order s) (s_core s) (k_cap (s_core s) - clean_target (k_cap (s_core s)) pct)) as [kc1 []]; cbn in *; auto.
+    destruct (order_legal kc1 order); cbn; auto. now rewrite s_clean_loop_cap.
+Qed.
+
+Lemma srun_cap bk : forall ops s, k_cap (s_core (fst (srun bk s ops))) = k_cap (s_core s).
+Proof.
+  induction ops as [|o t IH]; intros s; cbn [srun]; auto.
+  pose proof (sstep_cap bk s o) as H. destruct (sstep bk s o) as [s1 r]. cbn in H.
+  specialize (IH s1). destruct (srun bk s1 t) as [s2 rs]. cbn in *. congruence.
+Qed.
+
+(* ================================================================ who gets evicted *)
+Lemma in_firstn_or_skipn {A} (x : A) n l : In x l -> In x (firstn n l) \/ In x (skipn n l).
+Proof. intros H. rewrite <- (firstn_skipn n l) in H. now apply in_app_iff in H. Qed.
+
+Lemma evict_victims c s space : Inv c s ->
+  let kc1 := fst (s_evict (evict_order s) (s_core s) space) in
+  forall k' b, assoc k' (k_blobs (s_core s)) = Some b -> assoc k' (k_blobs kc1) = None ->
+    evictableb (s_core s) k' = true /\
+    forall k'', evictableb kc1 k'' = true -> last_of s k' < last_of s k''.
+Proof.
+  intros HI kc1 k' b Hb Hgone.
+  pose proof (inv_queue _ _ HI) as HQ. rewrite (inv_queue_eq _ _ HI) in HQ.
+  destruct HQ as [Hnd Hmem Hsorted _].
+  destruct (s_evict_prefix (evict_order s) (s_core s) space) as [n Hn]; auto.
+  { intros k Hk. apply Hmem in Hk. unfold evictableb in Hk. destruct (assoc k (k_blobs (s_core s))); [discriminate|discriminate Hk]. }
+  fold kc1 in Hn.
+  assert (Hin : In k' (firstn n (evict_order s))).
+  { specialize (Hn k'). rewrite Hgone, Hb in Hn. match type of Hn with context [if ?m then _ else _] => destruct m eqn:E end; [|discriminate Hn].
+    now apply memN_In in E. }
+  split.
+  - apply Hmem. eapply in_firstn_in; eauto.
+  - intros k'' He. unfold evictableb in He. specialize (Hn k'').
+    destruct (assoc k'' (k_blobs kc1)) as [b''|] eqn:E''; [|discriminate].
+    match type of Hn with context [if ?m then _ else _] => destruct m eqn:Em end; [discriminate Hn|].
+    assert (Hin'' : In k'' (evict_order s)).
+    { apply Hmem. unfold evictableb. now rewrite <- Hn. }
+    destruct (in_firstn_or_skipn k'' n _ Hin'') as [H|H].
+    + apply memN_In in H. congruence.
+    + exact (sorted_prefix_lt _ _ _ _ _ Hsorted Hin H).
+Qed.
+
+Lemma assoc_add_blob k sz d kc k' :
+  assoc k' (k_blobs (add_blob k sz d kc)) =
+  match assoc k' (k_blobs kc) with
+  | Some b => Some b
+  | None => if k =? k' then Some (mkblob sz false false [] (k_next kc)) else None
+  end.
+Proof. rewrite add_blob_blobs, assoc_app. cbn. now destruct (assoc k' (k_blobs kc)). Qed.
+
+(* Create: whatever leaves the store was complete and not banned, and was used less recently than
+   every complete, not banned blob that stays *)
+Theorem create_victims bk c s k sz data : Inv c s ->
+  let s' := fst (s_create bk s k sz data) in
+  forall k' b, assoc k' (k_blobs (s_core s)) = Some b -> assoc k' (k_blobs (s_core s')) = None ->
+    b_complete b = true /\ b_banned b = false /\
+    forall k'' b'', assoc k'' (k_blobs (s_core s')) = Some b'' -> b_complete b'' = true -> b_banned b'' = false ->
+      last_of s k' < last_of s k''.
+Proof.
+  intros HI s' k' b Hb Hgone. subst s'. unfold s_create in *.
+  destruct (negb (create_supported bk data)); [cbn in Hgone; congruence|].
+  destruct (assoc k (k_blobs (s_core s))) eqn:Ek; [cbn in Hgone; congruence|].
+  pose proof (evict_victims c s sz HI k' b Hb) as HV. cbn zeta in HV.
+  destruct (s_evict (evict_order s) (s_core s) sz) as [kc1 ok]. cbn [fst] in HV.
+  assert (Hfin : forall kcf, (kcf = kc1 \/ (exists d, kcf = add_blob k sz d kc1) \/
+                              (exists d cc, kcf = fst (add_handle cc (add_blob k sz d kc1)))) ->
+          assoc k' (k_blobs kcf) = None ->
+          b_complete b = true /\ b_banned b = false /\
+          forall k'' b'', assoc k'' (k_blobs kcf) = Some b'' -> b_complete b'' = true -> b_banned b'' = false ->
+            last_of s k' < last_of s k'').
+  { intros kcf Hk Hg.
+    assert (Hblobs : k_blobs kcf = k_blobs kc1 \/ exists d, k_blobs kcf = k_blobs (add_blob k sz d kc1)).
+    { destruct Hk as [->|[[d ->]|[d [cc ->]]]]; [now left|right; now exists d|right; now exists d]. }
+    assert (Hg1 : assoc k' (k_blobs kc1) = None).
+    { destruct Hblobs as [E|[d E]]; rewrite E in Hg; auto. rewrite assoc_add_blob in Hg.
+      now destruct (assoc k' (k_blobs kc1)). }
+    destruct (HV Hg1) as [He Hlt]. unfold evictableb in He. rewrite Hb in He.
+    apply andb_true_iff in He. destruct He as [Hc Hbn]. apply negb_true_iff in Hbn.
+    repeat split; auto. intros k'' b'' H'' Hc'' Hb''. apply Hlt. unfold evictableb.
+    destruct Hblobs as [E|[d E]]; rewrite E in H''.
+    - now rewrite H'', Hc'', Hb''.
+    - rewrite assoc_add_blob in H''. destruct (assoc k'' (k_blobs kc1)) as [b1|].
+      + inversion H''; subst. now rewrite Hc'', Hb''.
+      + destruct (k =? k''); [|discriminate]. inversion H''; subst. discriminate. }
+  destruct ok.
+  - destruct data as [d|]; cbn [fst s_core] in Hgone |- *.
+    + apply Hfin; auto. right; left. now exists d.
+    + apply Hfin; auto. right; right. now exists [], (k_next kc1).
+  - cbn [fst s_core] in Hgone |- *. apply Hfin; auto.
+Qed.
+
+(* ================================================================ scoped views *)
+Lemma lookup_any kc k b : assoc k (k_blobs kc) = Some b -> lookup kc k SAny = inl b.
+Proof. intros H. unfold lookup. now rewrite H. Qed.
+Lemma lookup_in_scope kc k sc b : assoc k (k_blobs kc) = Some b -> out_of_scope b sc = false -> lookup kc k sc = inl b.
+Proof. intros H Ho. unfold lookup. now rewrite H, Ho. Qed.
+Lemma lookup_out_scope kc k sc b : assoc k (k_blobs kc) = Some b -> out_of_scope b sc = true -> lookup kc k sc = inr EOutOfScope.
+Proof. intros H Ho. unfold lookup. now rewrite H, Ho. Qed.
+
+(* an operation issued through a scoped view: on an out-of-scope blob it fails with ErrOutOfScope
+   and changes nothing; on an in-scope blob it is the unscoped operation *)
+Theorem scope_hides bk fx c o k sc b :
+  op_scope o = Some (k, sc) -> assoc k (k_blobs (c_core c)) = Some b ->
+  match o with Has _ _ => True | _ =>
+    if out_of_scope b sc then cstep bk fx c o = (c, if (match bk, o with
+                                                      | Disk, Open _ _ => true
+                                                      | Memory, WriteAtMd _ _ _ _ _ => true
+                                                      | _, _ => false end) then OUnsupported else OErr EOutOfScope)
+    else cstep bk fx c o = cstep bk fx c (unscoped o)
+  end.
+Proof.
+  intros Ho Hb. destruct c as [kc size q]. cbn [c_core] in Hb.
+  destruct o; cbn in Ho; try discriminate Ho; inversion Ho; subst; clear Ho; auto;
+  destruct (out_of_scope b sc) eqn:Eo;
+  unfold cstep; cbn [plain_step unscoped c_core c_size c_queue];
+  try rewrite (lookup_any _ _ _ Hb);
+  try rewrite (lookup_out_scope _ _ _ _ Hb Eo);
+  try rewrite (lookup_in_scope _ _ _ _ Hb Eo);
+  try reflexivity; destruct bk; reflexivity.
+Qed.
+
+Theorem scope_has bk fx c k sc :
+  snd (cstep bk fx c (Has k sc)) =
+  match assoc k (k_blobs (c_core c)) with
+  | None => OHas false false
+  | Some b => OHas true (negb (out_of_scope b sc))
+  end.
+Proof. reflexivity. Qed.
+
+Lemma scope_list_in bk fx c sc k :
+  In k (scoped_keys (c_core c) sc) <->
+  exists b, In (k, b) (k_blobs (c_core c)) /\ out_of_scope b sc = false.
+Proof.
+  unfold scoped_keys, sort_keys. rewrite In_isort, in_map_iff. split.
+  - intros [[k0 b] [E H]]. cbn in E. subst. apply filter_In in H. destruct H as [H1 H2]. cbn in H2.
+    exists b. split; auto. now apply negb_true_iff in H2.
+  - intros [b [H1 H2]]. exists (k, b). split; auto. apply filter_In. split; auto. cbn. now rewrite H2.
+Qed.
+
+Theorem scope_list bk fx c sc :
+  snd (cstep bk fx c (ListK sc)) = OKeys (scoped_keys (c_core c) sc).
+Proof. reflexivity. Qed.
